@@ -89,13 +89,31 @@ def opaque_value_cases(rng, n):
         tree = zoo.Tup((fz, zoo.Opt(zoo.Falsy(n=2)), zoo.Falsy(n=3), zoo.Tup(())))
         dd = tree.duplicate()
         f2 = None
-        for a, b in zip([tree] + [i.node for i in tree.dfs()], [dd] + [i.node for i in dd.dfs()]):
+        for a, b in zip([tree] + [c for c, *_ in zoo.positions(tree)], [dd] + [c for c, *_ in zoo.positions(dd)]):
             if a is b:
                 f2 = f"duplicate(): the copy shares the original {type(a).__name__} object (falsy child nodes)"
             elif type(a) is not type(b) or a.content_id != b.content_id or _REG.get(b.id) is not b:
                 f2 = "duplicate(): a copied node differs / is not registered (falsy child nodes)"
-        if f2 is None and (len(list(dd.dfs())) != len(list(tree.dfs())) or not (dd == tree)):
+        if f2 is None and (len(list(zoo.positions(dd))) != len(list(zoo.positions(tree))) or not (dd == tree)):
             f2 = "duplicate() of a tree with falsy children is not == to the original"
+        # multiple inheritance: a field-less class combining two node classes whose first base was used before; the children
+        # stored in the second base's field are copied like all others
+        both = zoo.MBoth(lv=1, lk=zoo.Leaf(v=41), rv=2, rk=zoo.Un(zoo.Leaf(v=42)))
+        holder = zoo.Tup((both, zoo.MLeft(lv=3, lk=zoo.Leaf(v=43)), zoo.MRight(rv=4, rk=zoo.Leaf(v=44))))
+        hd = holder.duplicate()
+        f3 = None
+        # (the harness' own structure walk, not the library's traversal)
+        pa, pb = [holder] + [c for c, *_ in zoo.positions(holder)], [hd] + [c for c, *_ in zoo.positions(hd)]
+        if len(pa) != len(pb):
+            f3 = "duplicate() of a tree with multiply-inheriting nodes has another number of positions"
+        for a, b in zip(pa, pb):
+            if a is b:
+                f3 = f"duplicate(): the copy shares the original {type(a).__name__} object (child of a multiply-inheriting node)"
+        if f3 is None and not (hd == holder):
+            f3 = "duplicate() is not == to the original (multiple inheritance)"
+        yield Case("directed:multiple-inheritance", None, None, True, "Tup((MBoth(lk, rk), MLeft(lk), MRight(rk))).duplicate()",
+                   oracle_fail=f3, sig="copy|directed|multiple-inheritance")
+        del both, holder, hd, pa, pb
         yield Case("directed:falsy-children", None, None, True, "Tup((Un(Falsy), Opt(Falsy), Falsy, Tup(()))).duplicate()",
                    oracle_fail=f2, sig="copy|directed|falsy-children")
         del tree, dd, fz
